@@ -21,6 +21,137 @@ def _mk_fci(rng, valid):
     return b"REMB" + struct.pack("!BBH", 1, 0, 0) + struct.pack("!L", rng.choice(SSRCS)) + bytes(rng.randrange(0, 9))
 
 
+def mk_rtcp(op):
+    """the RTCP packet object of a [5, kind, ...] operation"""
+    from aiortc import rtp
+    k = op[1]
+    if k == 0:
+        info = rtp.RtcpSenderInfo(ntp_timestamp=0, rtp_timestamp=0, packet_count=0, octet_count=0)
+        return rtp.RtcpSrPacket(ssrc=op[2], sender_info=info, reports=[
+            rtp.RtcpReceiverInfo(ssrc=x, fraction_lost=0, packets_lost=0, highest_sequence=0, jitter=0, lsr=0, dlsr=0)
+            for x in op[3]])
+    if k == 1:
+        return rtp.RtcpRrPacket(ssrc=77, reports=[
+            rtp.RtcpReceiverInfo(ssrc=x, fraction_lost=0, packets_lost=0, highest_sequence=0, jitter=0, lsr=0, dlsr=0)
+            for x in op[2]])
+    if k == 2:
+        return rtp.RtcpSdesPacket(chunks=[])
+    if k == 3:
+        return rtp.RtcpByePacket(sources=list(op[2]))
+    if k == 4:
+        return rtp.RtcpRtpfbPacket(fmt=1, ssrc=77, media_ssrc=op[2])
+    return rtp.RtcpPsfbPacket(fmt=op[2], ssrc=77, media_ssrc=op[3], fci=bytes(op[4]))
+
+
+def gen_compound(rng):
+    """a compound RTCP datagram for RTCDtlsTransport._handle_rtcp_data: 2-5 packets with different targets, receivers
+    and senders registered beforehand, and handlers that - after suspending once - unregister another endpoint"""
+    recv = [[n, rng.sample(SSRCS[:6], rng.randrange(1, 3)), rng.sample(PTS, 1)] for n in range(1, rng.randrange(2, 5))]
+    send = [[n, rng.choice(SSRCS[:6])] for n in range(11, rng.randrange(12, 14))]
+    pkts = []
+    for _ in range(rng.randrange(2, 6)):
+        kind = rng.choice([0, 0, 1, 2, 3, 4, 4, 5])
+        if kind == 0:
+            pkts.append([5, 0, rng.choice(SSRCS[:6]), [rng.choice(SSRCS[:6]) for _ in range(rng.randrange(0, 3))]])
+        elif kind == 1:
+            pkts.append([5, 1, [rng.choice(SSRCS[:6]) for _ in range(rng.randrange(1, 3))]])
+        elif kind == 2:
+            pkts.append([5, 2])
+        elif kind == 3:
+            pkts.append([5, 3, [rng.choice(SSRCS[:6]) for _ in range(rng.randrange(1, 3))]])
+        elif kind == 4:
+            pkts.append([5, 4, rng.choice(SSRCS[:6])])
+        else:
+            pkts.append([5, 5, 1, rng.choice(SSRCS[:6]), []])
+    effects = []
+    if rng.random() < 0.6:
+        everyone = [r[0] for r in recv] + [x[0] for x in send]
+        for _ in range(rng.randrange(1, 3)):
+            effects.append([rng.choice(everyone), rng.choice(everyone)])      # [who reacts, whom it unregisters]
+    return {"recv": recv, "send": send, "packets": pkts, "effects": effects}
+
+
+def run_compound(spec):
+    """[actual, expected]: which endpoint was handed which packet (index) of the datagram - by the real
+    RTCDtlsTransport._handle_rtcp_data, and by the per-packet rule 'route the packet, deliver it, then go on'"""
+    import asyncio
+    import types
+    from aiortc.rtcdtlstransport import RTCDtlsTransport, RtpRouter
+
+    def build(log):
+        router = RtpRouter()
+        ends = {}
+
+        class End:
+            def __init__(self, n):
+                self.n = n
+                self._ssrc = 0
+                self.reacted = False
+
+            async def _handle_rtcp_packet(self, packet):
+                log.append([self.n, packet])
+                for who, target in spec["effects"]:
+                    if who == self.n and not self.reacted:
+                        self.reacted = True
+                        await asyncio.sleep(0)       # the handler suspends (as a sender retransmitting on NACK does)
+                        t = ends.get(target)
+                        if t is not None:
+                            (router.unregister_receiver if target < 10 else router.unregister_sender)(t)
+
+        for n, ssrcs, pts in spec["recv"]:
+            ends[n] = End(n)
+            router.register_receiver(ends[n], list(ssrcs), list(pts))
+        for n, ssrc in spec["send"]:
+            ends[n] = End(n)
+            router.register_sender(ends[n], ssrc)
+        return router, ends
+
+    packets = [mk_rtcp(op) for op in spec["packets"]]
+    data = b"".join(bytes(p) for p in packets)
+
+    async def go():
+        # the real dispatcher
+        log = []
+        router, _ = build(log)
+        stub = types.SimpleNamespace(_rtp_router=router)
+        setattr(stub, "_RTCDtlsTransport__log_debug", lambda *a: None)
+        import aiortc.rtcdtlstransport as D
+        real = D.RtcpPacket
+        seen = []
+
+        class Spy:
+            @staticmethod
+            def parse(d):
+                lst = real.parse(d)
+                seen.append(lst)
+                return lst
+
+        D.RtcpPacket = Spy
+        try:
+            await RTCDtlsTransport._handle_rtcp_data(stub, data)
+        finally:
+            D.RtcpPacket = real
+        order = [id(pk) for pk in (seen[0] if seen else [])]
+        actual = sorted([n, order.index(id(pk))] for n, pk in log)
+        # the reference: packet by packet
+        from aiortc.rtp import RtcpPacket
+        log2 = []
+        router2, _ = build(log2)
+        parsed = RtcpPacket.parse(data)
+        expected = []
+        for j, pk in enumerate(parsed):
+            for r in list(router2.route_rtcp(pk)):
+                expected.append([r.n, j])
+                await r._handle_rtcp_packet(pk)
+        return [actual, sorted(expected)]
+
+    loop = asyncio.new_event_loop()
+    try:
+        return loop.run_until_complete(go())
+    finally:
+        loop.close()
+
+
 SSRCS = [1, 2, 3, 4, 5, 1000, 4294967295, 0]
 PTS = [0, 8, 96, 97, 98, 111]
 
@@ -71,8 +202,35 @@ class C12(Check):
                     ops.append([5, 5, fmt, rng.choice(SSRCS), list(_mk_fci(rng, rng.randrange(4)))])
         return ops
 
+    # ------------------------------------------------------------ the dispatcher around the router
+    def extra_checks(self, ctx):
+        """RTCDtlsTransport._handle_rtcp_data on compound datagrams: every packet goes to exactly the endpoints the router
+        names for it at that moment - also when an earlier packet's handler suspended and unregistered somebody"""
+        import random
+        rng = random.Random(20240 + getattr(ctx["rng"], "randrange")(1 << 30) % 7)
+        n = 4000 if ctx["tier"] == "thorough" else 400
+        out = []
+        self.compound = {"datagrams": n, "with_unregistration": 0, "deliveries": 0}
+        for _ in range(n):
+            spec = gen_compound(rng)
+            actual, expected = run_compound(spec)
+            self.compound["with_unregistration"] += 1 if spec["effects"] else 0
+            self.compound["deliveries"] += len(expected)
+            if actual != expected and not out:
+                out.append(("rtcp-compound-misdelivered", self._compound_text(actual, expected), ["compound", spec]))
+        return out
+
+    @staticmethod
+    def _compound_text(actual, expected):
+        extra = [x for x in actual if x not in expected]
+        missing = [x for x in expected if x not in actual]
+        return ("compound RTCP datagram: [endpoint, packet index] deliveries that should not have happened " + str(extra) +
+                ", missing " + str(missing))
+
     # ------------------------------------------------------------ implementation
     def impl_run(self, case):
+        if case and case[0] == "compound":
+            return run_compound(case[1])
         from aiortc import rtp
         from aiortc.rtcdtlstransport import RtpRouter
 
@@ -156,6 +314,9 @@ class C12(Check):
 
     # ------------------------------------------------------------ oracle (the property, on the implementation)
     def oracle(self, case, impl_out):
+        if case and case[0] == "compound":
+            actual, expected = impl_out
+            return None if actual == expected else ("rtcp-compound-misdelivered", self._compound_text(actual, expected))
         outs = impl_out[0]
         owner = {}      # ssrc -> receiver (registration or latch)
         accepts = {}    # receiver -> set of pts
@@ -214,13 +375,28 @@ class C12(Check):
                                               f"property says {sorted(want_r)} / {sorted(want_s)}")
         return None
 
+    def shrink_candidates(self, case):
+        if case and case[0] == "compound":
+            spec = case[1]
+            for key in ("effects", "packets", "recv", "send"):
+                for i in range(len(spec[key])):
+                    if key != "packets" or len(spec[key]) > 1:
+                        yield ["compound", dict(spec, **{key: spec[key][:i] + spec[key][i + 1:]})]
+            return
+        yield from super().shrink_candidates(case)
+
+    def describe_case(self, case):
+        return case
+
     def nontrivial(self, case, impl_out):
+        if case and case[0] == "compound":
+            return bool(impl_out[1])
         outs = impl_out[0]
         routed = any(o and ((o[0] == 1 and o[1]) or (o[0] == 2 and (o[1] or o[2]))) for o in outs)
         return routed and any(op[0] in (2, 3) for op in case)
 
     def distribution(self, cases, outs):
-        d = {"ops": 0, "reg_recv": 0, "reg_send": 0, "unreg": 0, "rtp": 0, "rtcp": 0, "rtp_routed": 0,
+        d = {"compound_rtcp_dispatch": getattr(self, "compound", None), "ops": 0, "reg_recv": 0, "reg_send": 0, "unreg": 0, "rtp": 0, "rtcp": 0, "rtp_routed": 0,
              "rtp_dropped": 0, "rtcp_nonempty": 0, "latched": 0}
         for c, o in zip(cases, outs):
             for op, oo in zip(c, o[0]):
